@@ -25,9 +25,23 @@ def execute(cfgs, parallel=None, timeout=240, env_extra=None, label='run'):
         wd = os.path.join(base, f'{label}{k}')
         ee = dict(env_extra or {})
         ee.update(meta.get('env', {}))
-        r = runs.run_ddsmt(wd, text, spec, opts, timeout=timeout,
-                           env_extra=ee, ext=meta.get('ext', '.smt2'),
-                           cc_spec=meta.get('cc_spec'))
+        sch = None
+        if meta.get('sched'):
+            # completion order of the checks dictated by a schedule
+            import sched
+            os.makedirs(wd, exist_ok=True)
+            sc = meta['sched']
+            spec = dict(spec, sched_sock=os.path.join(wd, 's.sock'))
+            sch = sched.Scheduler(spec['sched_sock'], sc['jobs'],
+                                  sc['choices'], sc.get('tail', 'fifo'))
+        try:
+            r = runs.run_ddsmt(wd, text, spec, opts, timeout=timeout,
+                               env_extra=ee, ext=meta.get('ext', '.smt2'),
+                               cc_spec=meta.get('cc_spec'))
+        finally:
+            if sch:
+                sch.stop()
+                meta['decisions'] = list(sch.decisions)
         it = Item()
         it.run, it.text, it.spec, it.opts, it.meta = r, text, spec, opts, meta
         it.conv = traceconv.Conv(r)
